@@ -355,6 +355,18 @@ class EGraph:
                         conc = inst.type_map.get(pn)
                         if conc:
                             sub_key = self.prog.trait_impl(c["trait"], c["path"].split("::")[-1], conc)
+                    # `x.into()` is std's blanket `Into` calling `From::from`: when the crate implements that From, it is a crate-local call
+                    if not sub_key and re.search(r"convert::Into::into$", c["path"]):
+                        ga_ = c.get("rgargs") or c.get("gargs") or []
+                        if len(ga_) == 2 and ga_[0].get("s") and ga_[1].get("s"):
+                            src_ty, dst_ty = ga_[0]["s"], ga_[1]["s"]
+                            want_trait = "std::convert::From<%s>" % src_ty
+                            for k_, b_ in self.prog.bodies.items():
+                                if b_.get("impl_trait") == want_trait and b_.get("impl_self") == dst_ty and k_.endswith("::from") \
+                                        and re.sub(r"<.*$", "", dst_ty) in self.prog.facts.adts and not re.search(r"(^|::)errors::", dst_ty) \
+                                        and not k_.startswith(("testing::", "<testing::")):
+                                    sub_key = k_
+                                    break
                     if sub_key and self.no_inline(sub_key):
                         sub_key = None
                 if sub_key:
@@ -586,8 +598,41 @@ class EGraph:
             return v
         self._prov_memo[key] = None
         v = self._prov_local(inst, l)
+        sw = self._swapped_with(inst, l, v)
+        if sw is not None:
+            v = sw
         self._prov_memo[key] = v
         return v
+
+    _EMPTY_CTOR = re.compile(r"(Vec::<T>|vec::Vec::<T>|String|string::String)::new$|default::Default::default$|Vec::<T, A>::new_in$")
+
+    def _swapped_with(self, inst, l, v):
+        """`let mut fresh = Vec::new(); mem::swap(&mut fresh, &mut X); fresh` is `mem::take(&mut X)`: a local whose only definition is an
+        empty constructor and whose address goes into mem::swap holds, afterwards, what the other place held"""
+        if not (isinstance(v, tuple) and v and v[0] == "call" and self._EMPTY_CTOR.search(str(v[1]))):
+            return None
+        body = inst.body
+        for bi, blk in enumerate(body["blocks"]):
+            if blk.get("cleanup"):
+                continue
+            t = blk["term"]
+            if t["k"] != "call" or not t.get("callee") or not re.search(r"mem::swap$", t["callee"]["path"]) or len(t["args"]) != 2:
+                continue
+            pts = []
+            for a in t["args"]:
+                r = None
+                if a["k"] in ("copy", "move") and not a["p"]["proj"]:
+                    r = self._pointee(inst, a["p"]["l"])
+                    guard = 0
+                    while r is not None and r[1]["proj"] == ["deref"] and guard < 8:      # &mut *(&mut x)
+                        guard += 1
+                        r = self._pointee(r[0], r[1]["l"])
+                pts.append(r)
+            for i in (0, 1):
+                me, other_arg = pts[i], t["args"][1 - i]
+                if me is not None and me[0] is inst and me[1]["l"] == l and not me[1]["proj"] and other_arg["k"] in ("copy", "move"):
+                    return ("call", "std::mem::take", (self.prov_place(inst, {"l": other_arg["p"]["l"], "proj": ["deref"]}),), (inst.id, bi))
+        return None
 
     def _prov_local(self, inst, l):
         body = inst.body
